@@ -2,7 +2,7 @@ import dataclasses
 from abc import ABC, abstractmethod
 from dataclasses import dataclass
 from datetime import datetime, timedelta
-from typing import List, Set, Callable
+from typing import List, Set, Callable, Dict, Any
 
 from pjplan import Task, WBS, IResource, Resource
 from pjplan.utils import TextTable, GREEN, YELLOW, GREY, RED
@@ -21,26 +21,27 @@ def _validate_graph_isolation(project: WBS):
 def _check_loops(project: WBS):
     validated = set()
     for t in project.tasks:
-        _check_loops_from_task(t, set(), validated)
+        _check_loops_from_task(t, {}, validated)
 
 
-def _check_loops_from_task(task: Task, visited_tasks: Set[int], validated: Set[int]):
-    if task.id in validated:
+def _check_loops_from_task(task: Task, visited_tasks: Dict[int, Any], validated: Set[int]):
+    # Tasks are told apart by object identity: a task of another WBS may carry the id of a member
+    if id(task) in validated:
         return
 
-    if task.id in visited_tasks:
+    if id(task) in visited_tasks:
         raise RuntimeError(
             "Found circle",
-            [str(t) + "-->" for t in visited_tasks] + [str(task.id) + ":" + task.name]
+            [str(t) + "-->" for t in visited_tasks.values()] + [str(task.id) + ":" + str(task.name)]
         )
 
-    visited_tasks.add(task.id)
+    visited_tasks[id(task)] = task.id
 
     for s in task.predecessors:
         _check_loops_from_task(s, visited_tasks, validated)
 
-    visited_tasks.remove(task.id)
-    validated.add(task.id)
+    del visited_tasks[id(task)]
+    validated.add(id(task))
 
 
 @dataclass(frozen=True)
